@@ -48,8 +48,8 @@ class TS(object):
 
 
 def _text(v):
-    """representable_ini for a text field: a str without '%' (interpolation) -- single-line/blank rules concern the file syntax (A2)"""
-    return And(is_str(v), Not(sym.contains(v, "%")))
+    """representable_ini for a text field: a str -- single-line/blank rules concern the file syntax (A2)"""
+    return is_str(v)
 
 
 TI_SECTIONS = {
@@ -236,4 +236,161 @@ def contracts(src, T):
     for n in TI_SECTIONS:
         out.append(TiWriter(src, T, n))
         out.append(TiRoundTrip(src, T, n))
+    return out
+
+
+# ---------------------------------------------------------------------------------------------------------------------
+# C17: the legacy [general] section mirrors the authoritative sections
+# ---------------------------------------------------------------------------------------------------------------------
+class GeneralMirrors(Contract):
+    """TreeInfo.serialize(parser, main_variant): [general] family/version/name/arch/platforms/timestamp equal [release] name/version,
+    '<name> <version>', [tree] arch, [tree] platforms and str(int(build_timestamp)); 'variants' = sorted top-level keys; 'variant' is the
+    requested main variant or else the first top-level key; packagedir/repository are that variant's packages/repository (in a 'src'
+    tree falling back to source_packages/source_repository).  Stated for trees with 1 or 2 top-level variants (symbolic names and
+    paths) and a platform set {p} (symbolic): bounded in the NUMBER of variants/platforms, unbounded in every value."""
+
+    def __init__(self, src, T, nvar, main, mode):
+        # mode 'flat': release/tree/platform values symbolic, variant paths fixed; mode 'paths': the four path fields of every
+        # variant and the tree arch symbolic, release/timestamp/platform fixed  (keeps the number of paths small)
+        self.src, self.T, self.nvar, self.main, self.mode = src, T, nvar, main, mode
+        self.name = "productmd.treeinfo.TreeInfo.serialize[general:%s](%d variants%s)" % (mode, nvar, ", main_variant given" if main else "")
+        self.key = "gen:%s:%d:%d" % (mode, nvar, int(main))
+
+    PATHS = ("packages", "repository", "source_packages", "source_repository")
+
+    def setup(self, E):
+        from pyvc.models import ListSet
+        ti, _ = _mk(E, TI_SECTIONS["treeinfo.Release"])
+        f = {}
+
+        FIXED = {"rel.name": "Fedora", "rel.version": "21", "rel.short": "F", "tree.ts": 1417653911, "tree.p": "xen"}
+
+        def sv(name, o, attr, pre=None):
+            if self.mode.startswith("paths") and name in FIXED:
+                v = FIXED[name]
+            else:
+                v = SV(z3.Const("g.%s" % name, sym.Val))
+                E.assume(concretise.wellformed(v))
+            o.fields[attr] = v
+            f[name] = v
+            return v
+        rel, tree = ti.fields["release"], ti.fields["tree"]
+        for a in ("name", "version", "short"):
+            sv("rel." + a, rel, a)
+        rel.fields["is_layered"] = False
+        sv("tree.arch", tree, "arch")
+        sv("tree.ts", tree, "build_timestamp")
+        p = sv("tree.p", tree, "platforms")
+        tree.fields["platforms"] = ListSet([p])
+        E.assume(is_str(p))
+        E.assume(F.valid_ti_release(self.T, rel))
+        E.assume(F.valid_ti_tree(self.T, tree))
+        E.assume(And(*[_text(f[k]) for k in ("rel.name", "rel.version", "rel.short", "tree.arch", "tree.p")]))
+        E.assume(sym.is_int(f["tree.ts"]))          # float timestamps: bounded stand-in (float->int->str is A5)
+        vs = []
+        for i in range(self.nvar):
+            v = E.instantiate(("treeinfo", "Variant"), [ti])
+            uid = SV(sym.Val.VStr(z3.Const("g.v%d.uid" % i, sym.S)))
+            E.assume(And(sym.in_lang(uid, r"[A-Za-z0-9]+"), _text(uid)))
+            v.fields.update({"id": uid, "uid": uid, "name": "N%d" % i, "type": "variant"})
+            f["v%d.uid" % i] = uid
+            for pn in self.PATHS:
+                if self.mode == "flat":
+                    pv = {"packages": "Packages", "repository": "."}.get(pn)
+                elif (self.mode == "paths-pkg") != (pn in ("packages", "source_packages")):
+                    pv = None
+                else:
+                    pv = SV(z3.Const("g.v%d.%s" % (i, pn), sym.Val))
+                    E.assume(Or(is_none(pv), _text(pv)))
+                v.fields["paths"].fields[pn] = pv
+                f["v%d.%s" % (i, pn)] = pv
+            vs.append(v)
+        if self.nvar == 2:
+            E.assume(Not(eq(f["v0.uid"], f["v1.uid"])))
+        for v in vs:
+            E.models.sd_set(ti.fields["variants"].fields["variants"], v.fields["uid"], v)
+        mv = None
+        if self.main:
+            # the requested main variant is one of the top-level variants
+            mv = f["v%d.uid" % (self.nvar - 1)]
+        return {"ti": ti, "f": f, "vs": vs, "mv": mv, "parser": _new_parser(E)}
+
+    def call(self, E, st):
+        return E.call(E.getattr_(st["ti"], "serialize"), [st["parser"]], {"main_variant": st["mv"]})
+
+    def post(self, E, st, out):
+        if out.kind == "raise":
+            return {"valid_tree_is_written": False}
+        f = st["f"]
+        gen = _section(E, st["parser"], "general")
+        rel = _section(E, st["parser"], "release")
+        tree = _section(E, st["parser"], "tree")
+        if gen is None or rel is None or tree is None:
+            return {"general_section_written": False}
+        g = dict((e.key, e.value) for e in gen.entries if e.present is True and not isinstance(e.key, SV))
+        r = dict((e.key, e.value) for e in rel.entries if e.present is True and not isinstance(e.key, SV))
+        t = dict((e.key, e.value) for e in tree.entries if e.present is True and not isinstance(e.key, SV))
+        s_ = lambda k: SV(sym.Val.VStr(sym.Val.s(f[k].t))) if isinstance(f[k], SV) else f[k]
+        cl = {"general_section_written": True,
+              "family_version_name_mirror_release": And(_veq(g.get("family"), r.get("name")), _veq(g.get("version"), r.get("version")),
+                                                        _veq(g.get("name"), sym.concat(s_("rel.name"), " ", s_("rel.version")))),
+              "arch_platforms_mirror_tree": And(_veq(g.get("arch"), t.get("arch")), _veq(g.get("platforms"), t.get("platforms")),
+                                                _veq(t.get("arch"), f["tree.arch"])),
+              "timestamp_is_integer_build_timestamp": _veq(g.get("timestamp"), sym.str_of_int(SV(sym.Val.VInt(sym.sint(f["tree.ts"]))) if isinstance(f["tree.ts"], SV) else f["tree.ts"]))}
+        # main variant: requested, else the alphabetically first top-level key
+        uids = [f["v%d.uid" % i] for i in range(self.nvar)]
+        if self.main:
+            want = st["mv"]
+            idx = self.nvar - 1
+            main_ok = _veq(g.get("variant"), want)
+            sel = [(True, idx)]
+        elif self.nvar == 1:
+            main_ok = _veq(g.get("variant"), uids[0])
+            sel = [(True, 0)]
+        else:
+            lt = sym.as_bool(sym.sstr(uids[0]) < sym.sstr(uids[1]))
+            main_ok = And(Implies(lt, _veq(g.get("variant"), uids[0])), Implies(Not(lt), _veq(g.get("variant"), uids[1])))
+            sel = [(lt, 0), (Not(lt), 1)]
+        cl["variant_is_requested_or_first"] = main_ok
+        if self.nvar == 1:
+            cl["variants_lists_sorted_top_level"] = _veq(g.get("variants"), uids[0])
+        else:
+            lt = sym.as_bool(sym.sstr(uids[0]) < sym.sstr(uids[1]))
+            cl["variants_lists_sorted_top_level"] = And(
+                Implies(lt, _veq(g.get("variants"), sym.concat(uids[0], ",", uids[1]))),
+                Implies(Not(lt), _veq(g.get("variants"), sym.concat(uids[1], ",", uids[0]))))
+        is_src = eq(f["tree.arch"], "src")
+        pk = []
+        for cond, i in sel:
+            for opt, prim, fall in (("packagedir", "packages", "source_packages"), ("repository", "repository", "source_repository")):
+                pv, fv = f["v%d.%s" % (i, prim)], f["v%d.%s" % (i, fall)]
+                got = g.get(opt, None)
+                has = opt in g
+                exp_present = Or(Not(is_none(pv)), And(is_src, Not(is_none(fv))))
+                if has:
+                    pk.append(Implies(cond, And(exp_present, Implies(Not(is_none(pv)), _veq(got, pv)),
+                                                Implies(And(is_none(pv), is_src, Not(is_none(fv))), _veq(got, fv)))))
+                else:
+                    pk.append(Implies(cond, Not(exp_present)))
+        cl["packagedir_repository_of_main_variant"] = And(*pk)
+        return cl
+
+    def concretise(self, model, st):
+        return None
+
+    def native_eval(self, inputs):
+        raise NotImplementedError
+
+
+def contracts(src, T):          # noqa: F811
+    out = []
+    for n in TI_SECTIONS:
+        out.append(TiWriter(src, T, n))
+        out.append(TiRoundTrip(src, T, n))
+    for mode in ("flat", "paths-pkg", "paths-repo"):
+        for nvar in (1, 2):
+            for main in (False, True):
+                if mode == "flat" and main and nvar == 1:
+                    continue
+                out.append(GeneralMirrors(src, T, nvar, main, mode))
     return out
